@@ -2,13 +2,36 @@ package chain
 
 import (
 	"fmt"
+	"sync"
 	"time"
+
+	"github.com/ethereum/go-ethereum/common"
 
 	abci "github.com/cometbft/cometbft/abci/types"
 	sdkdb "github.com/cosmos/cosmos-db"
 	"github.com/cosmos/cosmos-sdk/crypto/keys/ed25519"
 	sdk "github.com/cosmos/cosmos-sdk/types"
 )
+
+var (
+	nativeErc20Once sync.Once
+	nativeErc20Addr common.Address
+)
+
+// NativeErc20Addr is the (deterministic) address the ERC-20 precompile of the EVM denomination gets when the genesis deploys it.
+func NativeErc20Addr() common.Address {
+	nativeErc20Once.Do(func() {
+		o := DefaultOpts()
+		o.NAccts, o.CpcDeployErc20Native = 1, true
+		c := New(o)
+		a := c.App.CPCKeeper.GetErc20CustomPrecompiledContractAddressByMinDenom(c.Ctx(), Denom)
+		if a == nil {
+			panic("native ERC-20 precompile not deployed by genesis")
+		}
+		nativeErc20Addr = *a
+	})
+	return nativeErc20Addr
+}
 
 // FromGenesis starts a fresh application from recorded genesis bytes (another node / another process):
 // everything Deliver needs (validator keys, proposer) is re-derived from the deterministic harness labels.
